@@ -112,7 +112,7 @@ Section C14.
     exists G'. split; [exact HG'|].
     destruct (optimise_all_equiv sortS sortZ sortS_perm sortZ_perm segs fuel G G' Hac HG') as [Hss Hr].
     split; [apply same_shape_gids; exact Hss|]. split.
-    - clear -Hss. induction Hss as [|g g' l l' [_ [_ Hn]] _ IH]; simpl; [reflexivity | congruence].
+    - clear -Hss. induction Hss as [|g g' l l' [_ [_ [Hn _]]] _ IH]; simpl; [reflexivity | congruence].
     - intros a Ha.
       destruct (closure segs G fuel a Hac Hcl Hnd Hf Ha) as [l [Hl [_ Hls]]].
       assert (Hac' : acyclic G') by (eapply same_shape_acyclic; eassumption).
